@@ -29,6 +29,10 @@ def cases(draw):
     cfg = draw(gg.switches())
     cfg.update(draw(gg.harmless_extras()))
     target = draw(common.target_spec(g))
+    if draw(st.integers(0, 3)) == 0:
+        cfg["remove_empty_shapes"] = False
+        if target["mode"] == "classes":
+            target["classes"] = target["classes"] + ["http://ex.org/C9"]      # a requested class without instances: empty shape
     thr = draw(st.sampled_from([0, 0, 0, 0.5, 1 / 3, 1]))
     return {"g": g, "cfg": cfg, "target": target, "thr": thr}
 
